@@ -37,7 +37,7 @@ def check(ctx):
     nint = 0
     for tu in ctx.tus:
         check_tu(ctx, tu)
-        nint += run_slot_rules(ctx, 'C13.S5', 'C13.S5', tu, only_kinds=('P-', 'O-drop'), classes=('EventQueueBase',),
+        nint += run_slot_rules(ctx, 'C13.S5', 'C13.S5', tu, only_kinds=('P-', 'O-'), classes=('EventQueueBase',),
                                fn_filter=lambda f: 'OrderedQueueList' in f.clsq or 'PoliciesOrdered' in f.clsq)
     ctx.require(nint >= 6, 'C13.S5: fewer than 6 processing functions of queues with the ordered list were interpreted (%d)' % nint)
     ctx.require_min('C13.S5', 4)
